@@ -30,7 +30,7 @@ SPECIAL = [0.0, -0.0, float('inf'), float('-inf'), float('nan'), 1e-45, 1e-39, 3
 
 
 def cases(tier, seed):
-    n = 24 if tier == 'quick' else 300
+    n = 64 if tier == 'quick' else 300
     return [{'seed': seed * 100003 + i, 'n': 700} for i in range(n)] + [{'seed': 0, 'headers': True}]
 
 
